@@ -4,10 +4,11 @@ C16 — theorems about the bind → servers glue (`BindGlue.lean`).
 Validity clause, the part the adapter itself is responsible for: the two arrays `listen` and
 `listen_protocols` of every emitted server are parallel (`server_arrays_parallel`; the http app
 refuses a config where they are not — "listener protocols count does not match address
-count").  Three clauses one would expect and the code as it is does NOT satisfy are stated in
-full and refuted by a concrete witness (`decide`), each replayed on the implementation:
-a listener address belongs to one server; the protocols of every `bind` of an address are
-served; every server has a listener.
+count").  Every protocol named by any `bind` of an address is served on it (`bind_protocols_served`,
+repaired by 4efd026; `bind_protocols_served_old_code_fails`).  Two clauses one would expect and
+the code as it is does NOT satisfy are stated in full and refuted by a concrete witness
+(`decide`), each replayed on the implementation: a listener address belongs to one server;
+every server has a listener.
 -/
 import CaddyModel.C16.BindGlue
 
@@ -57,13 +58,140 @@ theorem one_address_one_server_full_fails :
     ⟨["127.0.0.1:8080"], some [some ["h1"]], [0, 1]⟩, ⟨["127.0.0.1:8080"], some [some ["h2"]], [1]⟩, "127.0.0.1:8080",
     by decide⟩
 
-/-- FULL: every protocol named by a `bind` of an address is served on it.  Refuted: a second
-`bind` of the same address starts its protocol set afresh (`listeners[addr.String()]` tests the
-site address, never a key of the map). -/
-theorem bind_protocols_served_full_fails :
+/-! every protocol named by a `bind` of an address is served on it (repaired by 4efd026) -/
+
+theorem mem_insSorted (x y : String) : ∀ l : List String, y ∈ insSorted x l ↔ y = x ∨ y ∈ l
+  | [] => by simp [insSorted]
+  | z :: zs => by
+    unfold insSorted
+    split
+    · simp
+    · split
+      · rename_i h
+        have : x = z := by simpa using h
+        subst this
+        simp
+      · simp only [List.mem_cons, mem_insSorted x y zs]
+        constructor <;> (intro hh; rcases hh with hh | hh | hh <;> simp [hh])
+
+theorem mem_sortKeys_foldl (y : String) : ∀ (l acc : List String),
+    y ∈ l.foldl (fun acc x => insSorted x acc) acc ↔ y ∈ l ∨ y ∈ acc
+  | [], acc => by simp
+  | x :: xs, acc => by
+    simp only [List.foldl_cons, mem_sortKeys_foldl y xs, mem_insSorted, List.mem_cons]
+    constructor
+    · rintro (h1 | h1 | h1)
+      · exact Or.inl (Or.inr h1)
+      · exact Or.inl (Or.inl h1)
+      · exact Or.inr h1
+    · rintro ((h1 | h1) | h1)
+      · exact Or.inr (Or.inl h1)
+      · exact Or.inl h1
+      · exact Or.inr (Or.inr h1)
+
+theorem mem_sortKeys (y : String) (l : List String) : y ∈ sortKeys l ↔ y ∈ l := by
+  simp [sortKeys, mem_sortKeys_foldl]
+
+theorem lookupS_setS_same {β : Type} (k : String) (v : β) : ∀ m : List (String × β), lookupS (setS m k v) k = some v
+  | [] => by simp [setS, lookupS]
+  | (k', v') :: rest => by
+    by_cases h : k' = k
+    · simp [setS, lookupS, h]
+    · have ih := lookupS_setS_same k v rest
+      simp only [lookupS] at ih
+      simp [setS, lookupS, h, ih]
+
+theorem lookupS_setS_other {β : Type} (k k2 : String) (v : β) (hk : k2 ≠ k) :
+    ∀ m : List (String × β), lookupS (setS m k v) k2 = lookupS m k2
+  | [] => by
+    have : ¬ k = k2 := fun e => hk e.symm
+    simp [setS, lookupS, this]
+  | (k', v') :: rest => by
+    have ih := lookupS_setS_other k k2 v hk rest
+    simp only [lookupS] at ih
+    by_cases h : k' = k
+    · subst h
+      have : ¬ k' = k2 := fun e => hk e.symm
+      simp [setS, lookupS, this]
+    · by_cases h2 : k' = k2
+      · subst h2
+        simp [setS, lookupS, hk]
+      · simp [setS, lookupS, h, h2, ih]
+
+/-- protocol `p` is served on listener address `a` -/
+def Served (m : List (String × List String)) (a p : String) : Prop :=
+  ∃ ps, lookupS m a = some ps ∧ p ∈ ps
+
+/-- one step of `addBind` keeps what is served and serves the bind's protocols on its address -/
+theorem served_step (port : String) (acc : List (String × List String)) (h : String) (prots : List String) (a p : String) :
+    (Served acc a p → Served (setS acc (lnAddr port h) (sortKeys (((lookupS acc (lnAddr port h)).getD []) ++ prots))) a p) ∧
+    (a = lnAddr port h → p ∈ prots →
+      Served (setS acc (lnAddr port h) (sortKeys (((lookupS acc (lnAddr port h)).getD []) ++ prots))) a p) := by
+  constructor
+  · rintro ⟨ps, hl, hp⟩
+    by_cases e : a = lnAddr port h
+    · subst e
+      exact ⟨_, lookupS_setS_same _ _ _, by simp [mem_sortKeys, hl, hp]⟩
+    · exact ⟨ps, by rw [lookupS_setS_other _ _ _ e]; exact hl, hp⟩
+  · intro e hp
+    subst e
+    exact ⟨_, lookupS_setS_same _ _ _, by simp [mem_sortKeys, hp]⟩
+
+theorem served_addrs_fold (port : String) (prots : List String) (a p : String) :
+    ∀ (addrs : List String) (acc : List (String × List String)),
+      (Served acc a p → Served (addrs.foldl (fun acc h => setS acc (lnAddr port h)
+          (sortKeys (((lookupS acc (lnAddr port h)).getD []) ++ prots))) acc) a p) ∧
+      ((∃ h ∈ addrs, a = lnAddr port h) → p ∈ prots → Served (addrs.foldl (fun acc h => setS acc (lnAddr port h)
+          (sortKeys (((lookupS acc (lnAddr port h)).getD []) ++ prots))) acc) a p)
+  | [], acc => by simp
+  | h :: hs, acc => by
+    obtain ⟨s1, s2⟩ := served_step port acc h prots a p
+    obtain ⟨i1, i2⟩ := served_addrs_fold port prots a p hs
+      (setS acc (lnAddr port h) (sortKeys (((lookupS acc (lnAddr port h)).getD []) ++ prots)))
+    simp only [List.foldl_cons]
+    refine ⟨fun hs' => i1 (s1 hs'), ?_⟩
+    rintro ⟨h', hm, e⟩ hp
+    rcases List.mem_cons.1 hm with e' | e'
+    · subst e'; exact i1 (s2 e hp)
+    · exact i2 ⟨h', e', e⟩ hp
+
+theorem served_binds_fold (port : String) (a p : String) :
+    ∀ (binds : List BindVal) (acc : List (String × List String)),
+      (Served acc a p → Served (binds.foldl (addBind port) acc) a p) ∧
+      ((∃ b ∈ binds, (∃ h ∈ b.addrs, a = lnAddr port h) ∧ p ∈ b.prots) → Served (binds.foldl (addBind port) acc) a p)
+  | [], acc => by simp
+  | b :: bs, acc => by
+    obtain ⟨s1, s2⟩ := served_addrs_fold port b.prots a p b.addrs acc
+    obtain ⟨i1, i2⟩ := served_binds_fold port a p bs (addBind port acc b)
+    simp only [List.foldl_cons]
+    refine ⟨fun h => i1 (s1 h), ?_⟩
+    rintro ⟨b', hm, ha, hp⟩
+    rcases List.mem_cons.1 hm with e | e
+    · subst e; exact i1 (s2 ha hp)
+    · exact i2 ⟨b', e, ha, hp⟩
+
+/-- FULL STRENGTH (since 4efd026): every protocol named by ANY `bind` of a listener address is
+served on that address, however many `bind` values name it and in whatever order -/
+theorem bind_protocols_served (port : String) (binds : List BindVal) (b : BindVal) (h p : String)
+    (hb : b ∈ binds) (hh : h ∈ b.addrs) (hp : p ∈ b.prots) :
+    Served (listenersFor port binds) (lnAddr port h) p := by
+  unfold listenersFor
+  have hne : binds.isEmpty = false := by
+    cases binds with
+    | nil => simp at hb
+    | cons _ _ => rfl
+  simp only [hne]
+  exact (served_binds_fold port (lnAddr port h) p binds []).2 ⟨b, hb, ⟨h, hh, rfl⟩, hp⟩
+
+example : listenersFor "8080" [⟨["127.0.0.1"], ["h1"]⟩, ⟨["127.0.0.1"], ["h2"]⟩] = [("127.0.0.1:8080", ["h1", "h2"])] := by decide
+
+/-- NON-VACUITY (the code before 4efd026): a second `bind` of the same address started its
+protocol set afresh (`listeners[addr.String()]` tested the site address, never a key of the
+map), so `protocols h1` was lost and `h2` served without it -/
+theorem bind_protocols_served_old_code_fails :
     ∃ (binds : List BindVal) (b : BindVal) (p : String),
       b ∈ binds ∧ p ∈ b.prots ∧ b.addrs = ["127.0.0.1"] ∧
-      lookupS (listenersFor "8080" binds) "127.0.0.1:8080" = some ["h2"] ∧ p = "h1" :=
+      lookupS (listenersForOld "8080" binds) "127.0.0.1:8080" = some ["h2"] ∧ p = "h1" :=
   ⟨[⟨["127.0.0.1"], ["h1"]⟩, ⟨["127.0.0.1"], ["h2"]⟩], ⟨["127.0.0.1"], ["h1"]⟩, "h1", by decide⟩
 
 /-- FULL: every server has a listener.  Refuted: `bind 127.0.0.1 { protocols h1 h2 }` yields the
@@ -85,11 +213,10 @@ theorem no_protocols_no_array (lps : List (List String)) (h : ∀ ps ∈ lps, ps
     decide
   rw [if_pos this]
 
-/-- protocol lines of the three counter-examples (replayed on the implementation on every run;
+/-- protocol lines of the two counter-examples (replayed on the implementation on every run;
 model and implementation agree on them, which is the point) -/
 def bindWitnessLines : List String := [
   "bind 127.0.0.1/h1;127.0.0.1/h1+h2",
-  "bind 127.0.0.1/h1,127.0.0.1/h2",
   "bind 127.0.0.1/h1+h2"
 ]
 
